@@ -1,6 +1,10 @@
 """C13: container classes -> Gen_C13.v (src_tables).
 
-Extracted, fail closed on any other shape:
+Every function is first brought into a canonical form by translator/c13_norm.py (private helpers followed, local aliases
+and module-level literals substituted, guard clauses / early returns / if-elif chains / `match` / conditional expressions /
+`and`-`or` expanded into one decision tree and rendered in one way, inverted tests turned positive, messages, annotations,
+docstrings, logging dropped, locals renamed); the patterns below are written as source text and go through the same
+normaliser.  Extracted, fail closed on any other shape:
   * TYPE_LIST of Photon, Pixel, Signal, Image, Phase (tuple of np.dtype(np.<name>));
   * the guard sequence of ArrayBase._validate (isinstance / dtype in TYPE_LIST / shape) with the exception
     class of each guard, and that the `array` setter is `self._validate(value); self._array = value`;
@@ -64,7 +68,7 @@ def find_class(tree: ast.AST, name: str) -> ast.ClassDef:
     return c[0]
 
 
-def type_list_of(cls: ast.ClassDef, default=None):
+def type_list_of(cls: ast.ClassDef, default=None, module: ast.Module | None = None):
     vals = []
     for st in cls.body:
         tgt = None
@@ -81,6 +85,15 @@ def type_list_of(cls: ast.ClassDef, default=None):
     if len(vals) != 1:
         fail(cls, f"class {cls.name}: several TYPE_LIST assignments")
     v = vals[0]
+    if isinstance(v, ast.Name) and module is not None:       # TYPE_LIST = _FLOATS with `_FLOATS = (...)` at module level
+        defs = [st for st in module.body if isinstance(st, (ast.Assign, ast.AnnAssign))
+                and v.id in {n.id for n in ast.walk(st) if isinstance(n, ast.Name) and isinstance(n.ctx, ast.Store)}]
+        if len(defs) != 1 or defs[0].value is None:
+            fail(v, f"TYPE_LIST names `{v.id}`, which is not bound exactly once at module level")
+        tgt = defs[0].targets[0] if isinstance(defs[0], ast.Assign) else defs[0].target
+        if not isinstance(tgt, ast.Name):
+            fail(defs[0], "TYPE_LIST constant must be a plain module-level assignment")
+        v = defs[0].value
     if not isinstance(v, (ast.Tuple, ast.List)):
         fail(v, "TYPE_LIST must be a tuple/list literal")
     out = []
@@ -461,7 +474,7 @@ def extract(repo: Path) -> dict:
     # ---- ArrayBase
     tree = parse(repo, "pyxel/data_structure/array.py")
     base = find_class(tree, "ArrayBase")
-    base_tl = type_list_of(base, default=[])
+    base_tl = type_list_of(base, default=[], module=tree)
     base_inlined: set = set()
 
     def nz(fn, module, scopes, params=None, keep=()):
@@ -486,7 +499,7 @@ def extract(repo: Path) -> dict:
     check_order(st_fn, order, ["type", "dtype", "shape"])
     info["v"] = found
     init = find_func(tree, "__init__", "ArrayBase")
-    ib = [norm(s) for s in body_no_doc(init)]
+    ib = shape_of(nz(init, tree, [base], ["self", "shape"]))
     if "self._shape = shape" not in ib or not any(s.startswith("self._array") and s.endswith("= None") for s in ib):
         fail(init, "ArrayBase.__init__ must set `self._array = None` and `self._shape = shape`")
 
@@ -510,11 +523,11 @@ def extract(repo: Path) -> dict:
         if cname == "Photon":
             if cls.bases:
                 fail(cls, "Photon is modelled as a class of its own (no base class)")
-            tls[cname] = type_list_of(cls)
+            tls[cname] = type_list_of(cls, module=t)
             continue
         if [ast.unparse(x) for x in cls.bases] != ["ArrayBase"]:
             fail(cls, f"{cname} must derive from ArrayBase only")
-        tls[cname] = type_list_of(cls, default=base_tl)
+        tls[cname] = type_list_of(cls, default=base_tl, module=t)
         over = {n.name for n in cls.body if isinstance(n, ast.FunctionDef)} & BASE_ONLY
         if over:
             fail(cls, f"{cname} redefines {sorted(over)}; the model takes these from ArrayBase")
@@ -522,7 +535,8 @@ def extract(repo: Path) -> dict:
             if isinstance(n, ast.FunctionDef) and n.name in base_inlined and not N.is_message_only(n):
                 fail(n, f"{cname} redefines the helper {n.name} that ArrayBase's methods were read through")
         ini = find_func(t, "__init__", cname)
-        if [norm(s) for s in body_no_doc(ini)] != ["super().__init__(shape=(geo.row, geo.col))"]:
+        if shape_of(nz(ini, t, [cls, base], ["self", "geo"])) not in (["super().__init__(shape=(geo.row, geo.col))"],
+                                                                      ["super().__init__((geo.row, geo.col))"]):
             fail(ini, f"{cname}.__init__ must be super().__init__(shape=(geo.row, geo.col))")
         fe, fu = own_method(cls, "empty"), own_method(cls, "update")
         empties[cname] = empty_kind(nz(fe, t, [cls, base])) if fe is not None else empties["ArrayBase"]
@@ -533,9 +547,9 @@ def extract(repo: Path) -> dict:
     t = parse(repo, "pyxel/data_structure/photon.py")
     ph = find_class(t, "Photon")
     ini = find_func(t, "__init__", "Photon")
-    ib = [norm(s) for s in body_no_doc(ini)]
-    for need in ("self._num_rows: int = geo.row", "self._num_cols: int = geo.col"):
-        if need not in ib and need.replace(": int", "") not in ib:
+    ib = shape_of(nz(ini, t, [ph], ["self", "geo"]))
+    for need in ("self._num_rows = geo.row", "self._num_cols = geo.col"):
+        if need not in ib:
             fail(ini, f"Photon.__init__ must contain `{need}`")
     s2 = setter_of(ph, "array")
     if s2 is None:
